@@ -469,6 +469,30 @@ Definition sr_dedup (l : list srec) : list srec :=
   match l with [] => [] | x :: r => x :: sr_dedup_from x r end.
 Definition strip (l : list srec) : list rec := map fst l.
 
+(* Sort::sort_by(&mut records, CanonicalOrd::canonical_cmp): Record's
+   canonical_cmp is class (one class here), owner name_cmp, rtype, then the
+   data's canonical_cmp -- octet order for two Unknown or two records of one
+   known variant, Equal across variants.  slice::sort_by is stable: modelled
+   as the stable insertion sort (which it equals whenever the comparison is a
+   total preorder on the input, i.e. no owner/type holds both variants). *)
+Definition data_cmp (a b : srec) : comparison :=
+  let '(_, _, (ua, da)) := a in
+  let '(_, _, (ub, db)) := b in
+  if ua && ub then lex_cmp da db else if ua || ub then Eq else lex_cmp da db.
+Definition sr_cmp (a b : srec) : comparison :=
+  match name_cmp (sr_name a) (sr_name b) with
+  | Eq => match sr_type a ?= sr_type b with Eq => data_cmp a b | c => c end
+  | c => c
+  end.
+Fixpoint sr_insert (x : srec) (l : list srec) : list srec :=
+  match l with
+  | [] => [x]
+  | y :: r => match sr_cmp x y with Gt => y :: sr_insert x r | _ => x :: l end
+  end.
+Definition sr_sort (l : list srec) : list srec := fold_right sr_insert [] l.
+(* SortedRecords::from / extend *)
+Definition sorted_records (l : list srec) : list srec := sr_dedup (sr_sort l).
+
 (* ------------------------------------------ TTL, class and Rrset::new *)
 (* The same generators over records that also carry class, TTL and (for a
    SOA) the MINIMUM field.  Rrset::new panics (`expect("TTLs should be the
@@ -587,10 +611,194 @@ Fixpoint tnsec_loop (apex : name) (dnskey : bool) (gs : list tgroup)
 Definition generate_nsecs_t (apex : name) (dnskey : bool) (z : list trec) : outcome (list tnsec) :=
   tnsec_loop apex dnskey (tgroups (tskip_before apex z)) None None None [].
 
+(* ------------------------------------------ generate_nsec3s with TTLs *)
+(* nsec3_ttl and nsec3param_ttl are set at every SOA RRset seen; every NSEC3 is
+   created with the nsec3_ttl current at that moment (the ENT records with the
+   final one), class IN; the NSEC3PARAM record: apex, class IN, nsec3param_ttl. *)
+Inductive pmode := PFixed (t : N) | PSoa | PSoaMin.
+Definition n3_upd (m : pmode) (f : trec) : N * N :=
+  (soa_ttl f, match m with PFixed t => t | PSoa => t_ttl f | PSoaMin => t_min f end).
+
+Definition tnsec3_bitmap (c : n3cfg) (m : pmode) (at_cut has_ds at_apex : bool) (recs : list trec)
+  (st : option (N * N)) : outcome (list block * option (N * N)) :=
+  let bm := if negb at_cut || has_ds then bm_add [] nsec3_auth_type else [] in
+  do r <- trrset_loop (n3_upd m) at_cut nsec3_cut_types (truns recs) bm st;
+  let '(bm, st') := r in
+  if is_some st' then
+    Ok (if at_apex
+        then let bm := bm_add bm nsec3_apex_always in
+             if c_dnskey c then bm_add bm nsec3_apex_cfg else bm
+        else bm, st')
+  else Err 1.
+
+Fixpoint n3_loop_t (H : bytes -> bytes) (apex : name) (c : n3cfg) (m : pmode) (excl : bool) (gs : list tgroup)
+  (cut : option name) (stack : list name) (ents : list name) (st : option (N * N)) (acc : list (n3pre * N))
+  : outcome (list (n3pre * N) * list name * option (N * N)) :=
+  match gs with
+  | [] => Ok (acc, ents, st)
+  | g :: gs' =>
+      if negb (is_in_zone apex (tgroup_strip g)) then Ok (acc, ents, st)
+      else if below_cut cut (fst g) then n3_loop_t H apex c m excl gs' cut stack ents st acc
+      else
+        let nm := fst g in
+        let at_cut := is_zone_cut apex (tgroup_strip g) in
+        let cut' := if at_cut then Some nm else None in
+        let has_ds := memN rt_DS (map t_type (snd g)) in
+        if excl && at_cut && negb has_ds then n3_loop_t H apex c m excl gs' cut' stack ents st acc
+        else
+          let '(last_nent, stack') := pop_until nm stack in
+          do last_dist <- match last_nent with
+                          | Some s => label_dist s apex
+                          | None => Ok O
+                          end;
+          do dta <- label_dist nm apex;
+          let ents' := if (last_dist <? dta)%nat
+                       then ent_loop apex nm dta (dta - last_dist - 1) ents
+                       else ents in
+          do r <- tnsec3_bitmap c m at_cut has_ds (dta =? 0)%nat (snd g) st;
+          let '(bm, st') := r in
+          do p <- mk_pre H c nm bm;
+          do ttl <- match st' with Some (ttl, _) => Ok ttl | None => Panic 1 end;
+          let stack'' := nm :: match last_nent with Some s => s :: stack' | None => stack' end in
+          n3_loop_t H apex c m excl gs' cut' stack'' ents' st' ((p, ttl) :: acc)
+  end.
+
+(* sort / dedup / link over records that carry something along *)
+Section Carry.
+Variable A : Type.
+Variable pr : A -> n3pre.
+Fixpoint ginsert (p : A) (l : list A) : list A :=
+  match l with
+  | [] => [p]
+  | q :: r => match lex_cmp (p_hash (pr p)) (p_hash (pr q)) with
+              | Gt => q :: ginsert p r
+              | _ => p :: l
+              end
+  end.
+Definition gsort (l : list A) : list A := fold_right ginsert [] l.
+Fixpoint gdedup (l : list A) : list A :=
+  match l with
+  | [] => []
+  | a :: r => match gdedup r with
+              | b :: r' => if pre_eqb (pr a) (pr b) then b :: r' else a :: b :: r'
+              | [] => [a]
+              end
+  end.
+Fixpoint glink (only_one : bool) (first : A) (l : list A) : outcome (list (nsec3 * A)) :=
+  match l with
+  | [] => Ok []
+  | a :: r =>
+      let nxt := match r with b :: _ => b | [] => first end in
+      if negb only_one && bytes_eqb (p_hash (pr a)) (p_hash (pr nxt)) then
+        if negb (name_exact_eqb (p_name (pr a)) (p_name (pr nxt))) then Err 2 else Panic 6
+      else
+        do rest <- glink only_one first r;
+        Ok ((mk_nsec3 (p_hash (pr a)) (p_hash (pr nxt)) (p_types (pr a)), a) :: rest)
+  end.
+Definition gfinish (l : list A) : outcome (list (nsec3 * A)) :=
+  let all := gdedup (gsort l) in
+  match all with
+  | [] => Panic 5
+  | first :: _ => glink (length all =? 1)%nat first all
+  end.
+End Carry.
+
+Fixpoint ent_recs_t (H : bytes -> bytes) (c : n3cfg) (ttl : N) (es : list name) : outcome (list (n3pre * N)) :=
+  match es with
+  | [] => Ok []
+  | e :: es' => do p <- mk_pre H c e []; do ps <- ent_recs_t H c ttl es'; Ok ((p, ttl) :: ps)
+  end.
+
+Record n3out := mk_n3out { o_recs : list (nsec3 * N); o_class : N; o_param_ttl : N }.
+
+Definition generate_nsec3s_t (H : bytes -> bytes) (apex : name) (c : n3cfg) (m : pmode) (z : list trec)
+  : outcome n3out :=
+  let excl := opt_out_flag c && c_excl c in
+  do r <- n3_loop_t H apex c m excl (tgroups (tskip_before apex z)) None [] [] None [];
+  let '(acc, ents, st) := r in
+  match st with
+  | None => Err 1
+  | Some (ttl, pttl) =>
+      do entrecs <- ent_recs_t H c ttl ents;
+      do out <- gfinish (n3pre * N) fst (rev acc ++ entrecs);
+      Ok (mk_n3out (map (fun x => (fst x, snd (snd x))) out) nsec3_class pttl)
+  end.
+
+(* ------------------------------------------------------- RtypeBitmapIter *)
+(* data starts at the octets of the current window (and runs on into the
+   following windows); an exhausted iterator has empty data.  Panic site 8:
+   slice indexing in new / advance. *)
+Record bmit := mk_bmit { i_data : bytes; i_block : N; i_len : nat; i_octet : nat; i_bit : N }.
+
+Definition it_bit_set (s : bmit) : outcome bool :=
+  match nth_error (i_data s) (i_octet s) with
+  | Some b => Ok (negb (N.land b (N.shiftr bm_top_bit (i_bit s)) =? 0))
+  | None => Panic 8
+  end.
+
+(* one turn of the `loop` in advance, up to the test of the bit *)
+Definition it_step (s : bmit) : outcome bmit :=
+  let bit := i_bit s + 1 in
+  if bit =? 8 then
+    let octet := S (i_octet s) in
+    if (octet =? i_len s)%nat then
+      if (length (i_data s) <? i_len s)%nat then Panic 8
+      else
+        match skipn (i_len s) (i_data s) with
+        | [] => Ok (mk_bmit [] (i_block s) (i_len s) octet 0)
+        | [_] => Panic 8
+        | w :: l :: rest => Ok (mk_bmit rest (N.shiftl w 8) (N.to_nat l) 0 0)
+        end
+    else Ok (mk_bmit (i_data s) (i_block s) (i_len s) octet 0)
+  else Ok (mk_bmit (i_data s) (i_block s) (i_len s) (i_octet s) bit).
+
+Fixpoint it_advance (fuel : nat) (s : bmit) : outcome bmit :=
+  match fuel with
+  | O => OutOfFuel
+  | S fuel' =>
+      do s1 <- it_step s;
+      match i_data s1 with
+      | [] => Ok s1
+      | _ => do b <- it_bit_set s1; if b then Ok s1 else it_advance fuel' s1
+      end
+  end.
+
+Definition it_new (data : bytes) : outcome bmit :=
+  match data with
+  | [] => Ok (mk_bmit [] 0 0 0 0)
+  | [_] => Panic 8
+  | w :: l :: rest =>
+      let res := mk_bmit rest (N.shiftl w 8) (N.to_nat l) 0 0 in
+      match rest with
+      | [] => Panic 8
+      | b :: _ => if N.land b bm_top_bit =? 0 then it_advance (8 * length data) res else Ok res
+      end
+  end.
+
+(* Iterator::next until None *)
+Fixpoint it_collect (fuel : nat) (adv : nat) (s : bmit) : outcome (list N) :=
+  match fuel with
+  | O => OutOfFuel
+  | S fuel' =>
+      match i_data s with
+      | [] => Ok []
+      | _ =>
+          let t := N.lor (N.lor (i_block s) (N.shiftl (N.of_nat (i_octet s)) 3)) (i_bit s) in
+          do s' <- it_advance adv s; do rest <- it_collect fuel' adv s'; Ok (t :: rest)
+      end
+  end.
+
+Definition bm_iter (data : bytes) : outcome (list N) :=
+  do s <- it_new data; it_collect (S (8 * length data)) (8 * length data) s.
+
 (* ------------------------------------------------ executable entry points *)
+Definition c13_nsec3_t (apex : name) (c : n3cfg) (m : pmode) (z : list trec) : outcome n3out :=
+  generate_nsec3s_t sha1 apex c m z.
+Definition c13_bm_iter (ts : list N) : outcome (list N) := bm_iter (bm_finalize (bm_adds [] ts)).
 Definition c13_nsec_t (apex : name) (dnskey : bool) (z : list trec) : outcome (list tnsec) :=
   generate_nsecs_t apex dnskey z.
 Definition c13_dedup (l : list srec) : list rec := strip (sr_dedup l).
+Definition c13_sorted_records (l : list srec) : list srec := sorted_records l.
 Definition c13_bitmap (ts probes : list N) : bytes * list (outcome bool) :=
   let w := bm_finalize (bm_adds [] ts) in (w, map (bm_contains w) probes).
 Definition c13_nsec (apex : name) (dnskey : bool) (z : list rec) : outcome (list nsec) :=
